@@ -72,6 +72,12 @@ def main():
         # a REAL fresh interpreter executing a cone program: used to validate the fork oracle
         from sim import exec as sx
 
+        # same starting point as a child forked from the pristine parent: the package is imported
+        # (module bodies executed) before any operation runs and before the logical clock is armed
+        import dep_logic.markers  # noqa: F401
+        import dep_logic.specifiers  # noqa: F401
+        import dep_logic.utils  # noqa: F401
+
         with open(a.cold_exec) as f:
             doc = json.load(f)
         recs = sx.run_steps(doc["steps"], doc["envs"], faults=False, fuel=doc["fuel"], observe_ids={doc["steps"][-1]["id"]})
